@@ -124,7 +124,9 @@ class Der:
             k = [x for x in k if x[0] != 0xa3]
             seq = b""
             for oid, crit, val in exts:
-                seq += enc(0x30, enc(6, oid) + (enc(1, b"\xff") if crit else b"") + enc(4, val))
+                # crit: False = field absent, True = DER TRUE (FF), an int = that BOOLEAN content octet (0 = explicit FALSE)
+                cb = None if crit is False else (0xff if crit is True else int(crit))
+                seq += enc(0x30, enc(6, oid) + (enc(1, bytes([cb])) if cb is not None else b"") + enc(4, val))
             k.append((0xa3, enc(0x30, seq)))
         tbs = b"".join(enc(t, c) for t, c in k)
         return enc(0x30, enc(0x30, tbs) + enc(0x30, alg_out if alg_out is not None else self.alg_out) + enc(3, b"\x00" + self.sig))
@@ -480,6 +482,8 @@ CONST_OF = {("rsa", "sha256"): "n_OID_SHA256_RSA_SIG", ("rsa", "sha384"): "n_OID
             ("rsa", "sha1"): "n_OID_SHA1_RSA_SIG", ("rsa", "md5"): "n_OID_MD5_RSA_SIG", ("rsa", "md2"): "n_OID_MD2_RSA_SIG", ("rsa", "sha224"): "n_OID_SHA224_RSA_SIG",
             ("ec", "sha256"): "n_OID_SHA256_ECDSA_SIG", ("ec", "sha384"): "n_OID_SHA384_ECDSA_SIG", ("ec", "sha512"): "n_OID_SHA512_ECDSA_SIG",
             ("ec", "sha1"): "n_OID_SHA1_ECDSA_SIG", ("ec", "sha224"): "n_OID_SHA224_ECDSA_SIG"}
+CRIT_OCTETS = [0xff, 0x01, 0x80, 0x7f, 0xfe, 0x00]
+NAME_CONSTRAINTS = bytes.fromhex("300ba009300782056" + "12e636f6d")      # permittedSubtrees: dNSName a.com
 UNHANDLED_EXT = [bytes([0x55, 0x1d, 99]), bytes([0x55, 0x1d, 54]), bytes([0x55, 0x1d, 9]), bytes([0x2b, 6, 1, 4, 1, 0x82, 0x37, 99])]
 PIN_DATES = [(2010, 6, 15), (2017, 3, 15), (2017, 3, 16), (2017, 3, 17), (2017, 3, 18), (2020, 6, 15), (2027, 3, 16), (2027, 3, 17), (2027, 3, 18), (2027, 3, 19), (2030, 6, 15)]
 
@@ -498,6 +502,7 @@ def ps_cases(repo, U, r, consts, budget):
     srcs = [(n, d) for n, d in zip(U.names, U.d)] + [(n, Der(load_der(repo, n))) for n in SHA1_CERTS]
     srcs = [(n, d) for n, d in srcs if alg_kind(d.alg_in)[0]]            # PKCS#1 v1.5 and ECDSA certificates (PSS keeps its parameters)
     out = []
+    prio = []             # always kept (not subject to the shuffle / budget cut)
     def emit(d, date=(2020, 6, 15), **kw):
         der = d.rebuild(**kw)
         fam_i, h_i = alg_kind(kw.get("alg_in", d.alg_in)); fam_o, h_o = alg_kind(kw.get("alg_out", d.alg_out))
@@ -506,7 +511,10 @@ def ps_cases(repo, U, r, consts, budget):
         cs, ci = Der.cn(subj) or b"", Der.cn(iss) or b""
         exts = kw.get("exts", d.exts)
         known = {bytes([0x55, 0x1d, x]) for x in (35, 14, 15, 17, 18, 19, 37, 31)} | {bytes.fromhex("2b06010505070101")}
-        unk = any(c and (o not in known) for o, c, _ in exts)
+        # critical = the BOOLEAN is present and its content octet is non-zero (BER: any non-zero octet is TRUE; the parser says so
+        # itself for basicConstraints cA, OpenSSL reads it the same way); a critical nameConstraints is refused as unsupported too
+        def is_crit(c): return (c is True) or (c is not False and int(c) != 0)
+        unk = any(is_crit(c) and (o not in known or o == bytes([0x55, 0x1d, 30])) for o, c, _ in exts)
         (t1, nb), (t2, na) = kids(d.validity)
         now = calendar.timegm((date[0], date[1], date[2], 12, 0, 0, 0, 0, 0))
         ids = {}
@@ -532,12 +540,23 @@ def ps_cases(repo, U, r, consts, budget):
         for o in UNHANDLED_EXT:
             for crit in (False, True):
                 emit(d, exts=d.exts + [[o, crit, b"\x04\x02\x01\x02"]])
+        # the `critical` BOOLEAN in every spelling of TRUE (and explicit FALSE as the control): an unrecognised extension,
+        # nameConstraints (refused when critical), and a handled extension (basicConstraints / keyUsage keep parsing)
+        for cb in CRIT_OCTETS:
+            prio_mark = len(out)
+            emit(d, exts=d.exts + [[UNHANDLED_EXT[0], cb, b"\x04\x02\x01\x02"]])
+            emit(d, exts=d.exts + [[bytes([0x55, 0x1d, 30]), cb, NAME_CONSTRAINTS]])
+            if d.exts:
+                e2 = [list(x) for x in d.exts]; e2[0][1] = cb
+                if e2[0][0] != bytes([0x55, 0x1d, 30]): emit(d, exts=e2)
+            prio.extend(out[prio_mark:]); del out[prio_mark:]
         if d.exts:
             i = r.randrange(len(d.exts))
             e2 = [list(x) for x in d.exts]; e2[i][1] = not e2[i][1]
             if e2[i][0] not in (bytes([0x55, 0x1d, 30]),): emit(d, exts=e2)
     r.shuffle(out)
-    return out[:budget]
+    r.shuffle(prio)
+    return prio[:max(400, budget // 3)] + out[:budget]
 
 
 # ---------------------------------------------------------------- run
@@ -675,6 +694,8 @@ def run(ck):
     ck.assumptions += ["every certificate reached the validator through psX509ParseCert (v3, no unknown critical extension, enabled algorithm)",
                        "the leaf's authStatus is 0 when validation starts (freshly parsed)",
                        "TBS digest and signature value identify a certificate (collision resistance): a copy of a certificate stands for it",
+                       "an extension is critical when its `critical` BOOLEAN is present with a non-zero content octet (BER reading; it is the parser's own reading of "
+                       "basicConstraints cA and OpenSSL's reading): FF, 01, 80, 7F, FE all mean TRUE, 00 means FALSE",
                        "revocation: serial numbers are DER (minimal INTEGER octets) in certificates and CRL entries; the literal clause (no authenticated loaded CRL lists the certificate) "
                        "is proved for a tidy cache - one CRL per issuer name, none past nextUpdate (c03_revocation); the two exceptions (c03_revocation_shadowed_refuted, c03_revocation_stale_refuted) "
                        "are listed open findings C03-crl-shadowed / C03-crl-stale (signatures revoked-accepted:shadowed:* / revoked-accepted:stale:*), emitted whenever a run meets them; "
@@ -849,6 +870,24 @@ def run(ck):
                 ck.spec_violation("unrevoked-rejected:rc=%s" % m.group(1),
                                   "matrixValidateCerts rejects a genuinely signed chain none of whose certificates is listed in an authenticated CRL",
                                   dict(rep, expected_by_spec="accept"))
+    # DER level: the `critical` BOOLEAN spelled with every non-zero octet (and explicit FALSE), leaf and intermediate
+    xc = c03crl.crit_cases(W)
+    rcx, xout, _ = ck.run_lines(h, [l for l, _, _, _ in xc])
+    ck.cov["evaluations"] += len(xc)
+    for (l, kind, cb, bad), o in zip(xc, xout + ["?"] * len(xc)):
+        m = re.match(r"rc=(-?\d+) st=(\S+) ", o)
+        acc = bool(m) and int(m.group(1)) == 0 and all(x == "1" for x in m.group(2).split(","))
+        ck.count("critical-octet:%s:%s" % ("accepted" if acc else "refused", "true" if bad else "false"))
+        ck.add_distinct("xc" + kind + str(cb))
+        rep = {"harness": "h_chain", "case": l[:200] + "...", "full_case": l, "observed": o, "extension": kind, "critical_octet": "%02X" % cb}
+        if acc and bad:
+            ck.spec_violation("critical-extension-accepted:%s:%02X" % (kind, cb),
+                              "a chain is accepted although a certificate carries %s marked critical (BOOLEAN content octet %02X, non-zero = TRUE)" % (kind, cb),
+                              dict(rep, expected_by_spec="not accepted"))
+        if not acc and not bad:
+            ck.spec_violation("noncritical-extension-refused:%s" % kind,
+                              "a genuinely signed chain is refused because of an extension explicitly marked NOT critical (%s, BOOLEAN 00)" % kind,
+                              dict(rep, expected_by_spec="accepted"))
     # public API, untouched certificates: the order of two same-named trust anchors must not decide
     ix = U.names.index
     pv = ["pv %d %d %d" % (ix("RSA/2048_RSA"), ix("RSA/2048_RSA_CA"), ix("@decoy_rsa2048_ca")),
